@@ -59,16 +59,23 @@ def past_reach(f):
     return sub
 
 
-def h_delay(f, N, kind='combined', period=None, unit=None, txt=None, resets=0):
-    """f: formula in SAMPLES (oracle); txt: concrete text if it differs from text(f) (unit spellings)"""
+def h_delay(f, N, kind='combined', period=None, unit=None, txt=None, resets=0, defs=None):
+    """f: formula in SAMPLES (oracle); txt: concrete text if it differs from text(f) (unit spellings);
+    defs: named sub-formulas defined by earlier assertions of the same text (f then refers to them by name; the oracle inlines them)"""
     f = T(f)
+    full_text = None
+    if defs:
+        from .c09 import inline
+        dl = [(n, T(d)) for n, d in defs]
+        full_text = '\n'.join('%s = %s;' % (n, text(d)) for n, d in dl) + '\nout = ' + text(f) + ';'
+        f = inline(f, dict(dl))
     vs = sorted(variables(f))
     h = hor(f)
     reach = past_reach(f)
 
     def body(env):
         A = env.A
-        s = _make(kind, 'out = ' + (txt or text(f)), vs, period, unit)
+        s = _make(kind, full_text or ('out = ' + (txt or text(f))), vs, period, unit)
         for r in range(resets):
             # the same monitor object was used on other traces before and reset() each time
             w0 = dt.trace(env, vs, 2 + r, prefix='r%d_' % r)
@@ -184,6 +191,13 @@ UNIT_CASES = [
      '((x) >= (0.0)) implies (eventually[500ms,2500ms]((y) >= (0.0)))', (500, 'ms'), 's'),
     (('and', ('eventually_t', X, 1, 3), ('once_t', Y, 0, 1)), '(eventually[0.5,1.5](x)) and (once[0,500ms](y))', (500, 'ms'), None),
     (('eventually_t', ('always_t', X, 0, 1), 1, 2), 'eventually[250ms,500ms](always[0,0.25](x))', (250, 'ms'), 's'),
+    # next is one SAMPLE whatever the sampling period is: its siblings are delayed by one sample, not by one default unit
+    (('or', ('next', X), Y), '(next(x)) or (y)', (500, 'ms'), 's'),
+    (('and', ('next', ('next', X)), ('once_t', Y, 0, 1)), '(next(next(x))) and (once[0,500ms](y))', (500, 'ms'), 's'),
+    (('or', ('next', X), ('eventually_t', Y, 0, 2)), '(next(x)) or (eventually[0,1](y))', (500, 'ms'), 's'),
+    (('or', ('s_next', X), Y), '(s_next(x)) or (y)', (250, 'ms'), 's'),
+    (('or', ('next', X), Y), '(next(x)) or (y)', (2, 's'), 's'),
+    (('and', ('eventually_t', X, 1, 2), ('next', Y)), '(eventually[1s,2s](x)) and (next(y))', (1, 's'), 'ms'),
 ]
 NOFUT_CASES = [
     (('once_t', X, 0, 2), 'once[0ms,2000ms](x)', None, None),
@@ -280,6 +294,23 @@ def obligations(tier, rng):
     for f, txt, period, unit in UNIT_CASES:
         h = hor(f)
         out.append(ob('C03', 'delay', 'units/%s/p=%s' % (txt, period), f=f, N=h + 3, txt=txt, period=period, unit=unit))
+    # named sub-formulas referenced at the top, below Boolean connectives and BELOW future operators (where the remaining horizon at
+    # the place of reference is smaller than the horizon of the referring assertion), once or several times
+    PS, QS = ('var', 'psub'), ('var', 'qsub')
+    G0 = lambda v: ('geq', v, ('const', 0.0))
+    named = [([('psub', G0(X)), ('qsub', G0(Y))], ('always_t', ('implies', PS, QS), 0, 3)),
+             ([('psub', G0(X)), ('qsub', ('eventually_t', G0(Y), 0, 2))], ('always_t', ('implies', PS, QS), 0, 3)),
+             ([('psub', ('once_t', X, 0, 1))], ('eventually_t', PS, 1, 2)),
+             ([('psub', ('once_t', X, 0, 1))], ('or', PS, ('eventually_t', PS, 0, 2))),
+             ([('psub', ('eventually_t', X, 0, 1))], ('and', ('next', PS), Y)),
+             ([('psub', G0(X))], ('until_t', PS, G0(Y), 1, 2)),
+             ([('psub', ('always_t', X, 0, 1)), ('qsub', ('or', PS, Y))], ('eventually_t', QS, 0, 2)),
+             ([('psub', ('prev', X))], ('and', ('always_t', PS, 0, 2), ('eventually_t', Y, 0, 1))),
+             ([('psub', G0(X))], ('next', ('next', PS)))]
+    for defs, main in named:
+        from .c09 import inline
+        h = hor(inline(T(main), {n: T(d) for n, d in defs}))
+        out.append(ob('C03', 'delay', 'named/%s/%s' % (';'.join('%s=%s' % (n, text(d)) for n, d in defs), text(main)), f=main, N=h + 3, defs=defs))
     for f, txt, period, unit in NOFUT_CASES:
         out.append(ob('C03', 'nofuture', 'nofuture/%s/p=%s' % (txt, period), f=f, N=6, txt=txt, period=period, unit=unit))
     for f in [('eventually', X), ('always', X), ('until', X, Y), ('and', ('always', X), Y), ('once', ('eventually', X)),
